@@ -217,9 +217,10 @@ def _c10_generator(ctx, exact_part):
     acc = Acc(ctx)
     cl = {
         "count": "generate(N) returns one float64 array of shape exactly (N, 4) per daughter, for every N, mass set and seed (force=True)",
-        "finite_on_shell": "every momentum is finite and |E - sqrt(|p|^2 + m_i^2)| <= 1e-9*m0 for every particle (massless and near-threshold included)",
-        "conservation": ("sum of the momenta == (m0, 0, 0, 0) to 1e-9*m0 (masses exactly representable in float32)" if exact_part else
-                         "sum of the momenta == (m0, 0, 0, 0) to 2e-7*m0 (generic masses; single precision of float32(m0), see assumptions)"),
+        "finite_on_shell": "every momentum is finite and |E - sqrt(|p|^2 + m_i^2)| <= 1e-9*m0 for every particle (massless and near-threshold included; events containing a "
+                           "sub-system {k..n} with Lorentz factor gamma > 750 - possible for massless daughters only - are compared at 8 eps gamma^2 m0: boost conditioning)",
+        "conservation": ("sum of the momenta == (m0, 0, 0, 0) to 1e-9*m0 (masses exactly representable in float32; boost conditioning 8 eps gamma^2 for gamma > 750 as above)"
+                         if exact_part else "sum of the momenta == (m0, 0, 0, 0) to 2e-7*m0 (generic masses; single precision of float32(m0), see assumptions)"),
         "weight_le_1": "0 <= get_weight(ms) <= 1 for 1e5 proposed mass tuples, with and without the importance factor (the acceptance test weight > rnd, rnd in [0,1), "
                        "needs it)",
         "unflattened": "generate(N, flatten=False) returns (weight, momenta): N weighted events, physical, weights in [0, 1]",
@@ -556,11 +557,11 @@ def c10_cal_max(ctx):
     tf = ctx.mod("tensorflow_wrapper").tf
     PS = ctx.mod("phasespace")
     acc = Acc(ctx)
-    sets = [(3.0, [0.5, 0.3, 0.14]), (1.0, [0.0, 0.0, 0.0]), (5.0, [1.0, 1.0, 1.0, 0.5]), (3.1, [0.5, 0.3, 0.14, 0.0]), (5.3, [0.14, 0.14, 0.14, 0.14, 0.14]),
-            (3.3, [0.5, 0.4, 0.3, 0.2, 0.1, 0.05]), (5.0, [0.1, 0.1, 0.1, 0.1, 0.1, 0.1])]
-    for nb in (3, 4, 5, 6):
-        acc.declare("weight_le_1_after_cal_max_weight/n=%d" % nb,
-                    "after cal_max_weight() the acceptance weight get_weight(ms) (relative to the generator's own, re-computed bound) is <= 1 on 1e5 proposals, n = %d bodies" % nb)
+    sets = [(3.3, [0.5, 0.4, 0.3, 0.2, 0.1, 0.05]), (5.0, [0.1, 0.1, 0.1, 0.1, 0.1, 0.1]), (5.3, [0.14, 0.14, 0.14, 0.14, 0.14]), (5.0, [1.0, 1.0, 1.0, 0.5]),
+            (3.1, [0.5, 0.3, 0.14, 0.0]), (3.0, [0.5, 0.3, 0.14]), (1.0, [0.0, 0.0, 0.0])]
+    acc.declare("weight_le_1_after_cal_max_weight",
+                "after cal_max_weight() the acceptance weight get_weight(ms) (relative to the generator's own, re-computed bound) is finite and <= 1 on 1e5 proposals, n = 3..6 bodies")
+    failing = []
     for m0, mi in sets:
         nb = len(mi)
         for seed in range(5):
@@ -573,9 +574,12 @@ def c10_cal_max(ctx):
             ms = gen.generate_mass(100000)
             wt = np.asarray(gen.get_weight(ms), dtype=np.float64)
             i = int(np.argmax(wt))
-            acc.add("weight_le_1_after_cal_max_weight/n=%d" % nb, err is None and bool(wt.max() <= 1.0),
+            ok = err is None and bool(np.all(np.isfinite(wt)) and wt.max() <= 1.0)
+            if not ok:
+                failing.append({"n": nb, "m0": m0, "tf_seed": s, "max_weight": float(wt[i])})
+            acc.add("weight_le_1_after_cal_max_weight", ok,
                     {"m0": m0, "mi": mi, "tf_seed": s, "raised": err, "max_weight": float(wt[i]), "masses": [float(np.asarray(x)[i]) for x in ms],
-                     "m_wtMax_before": old, "m_wtMax_after": float(gen.m_wtMax), "fraction_of_proposals_above_1": float(np.mean(wt > 1.0))})
+                     "m_wtMax_before": old, "m_wtMax_after": float(gen.m_wtMax), "fraction_of_proposals_above_1": float(np.mean(wt > 1.0)), "all_failing_cases": failing})
     acc.flush()
 
 
